@@ -138,6 +138,7 @@ pub fn run(case: &serde_json::Value, out: &mut String) {
         }
         Ok(nw) => {
             writeln!(out, "load OK").unwrap();
+            writeln!(out, "{}", perm_line(&nw)).unwrap();
             match guarded(|| {
                 let mut s = String::new();
                 dump_network(&nw, &mut s);
